@@ -113,6 +113,12 @@ impl<const ROUNDS: usize> State<ROUNDS> {
         }
     }
 
+    #[cfg(feature = "verif-hooks")]
+    pub(crate) fn verif_set_counter64(&mut self, counter: u64) {
+        self.state[8] = counter as u32;
+        self.state[9] = (counter >> 32) as u32;
+    }
+
     #[inline]
     pub(crate) fn output_bytes(&self, output: &mut [u8]) {
         write_u32v_le(output, &self.state);
@@ -156,6 +162,13 @@ impl<const ROUNDS: usize> Salsa<ROUNDS> {
             output: [0; 64],
             offset: 64,
         }
+    }
+
+    /// Verification hook: preset the 64 bits block counter and drop the cached block
+    #[cfg(feature = "verif-hooks")]
+    pub fn verif_set_block_counter(&mut self, counter: u64) {
+        self.state.verif_set_counter64(counter);
+        self.offset = 64;
     }
 
     fn update(&mut self) {
@@ -235,6 +248,13 @@ impl<const ROUNDS: usize> XSalsa<ROUNDS> {
             offset: 64,
         };
         xsalsa
+    }
+
+    /// Verification hook: preset the 64 bits block counter and drop the cached block
+    #[cfg(feature = "verif-hooks")]
+    pub fn verif_set_block_counter(&mut self, counter: u64) {
+        self.state.verif_set_counter64(counter);
+        self.offset = 64;
     }
 
     fn update(&mut self) {
